@@ -192,18 +192,39 @@ def check(run, prog, tier):
 
     # ---- C17-b
     stale_ok = miss_ok = False
+    def value_on_edge(f, bid, idx):
+        """constant returned when the branch of block bid is left through successor idx (`if (c) return K;` or
+        `return c ? K : L;`), or None"""
+        c0 = f.branch_cond(bid)
+        cur = f.blocks[bid].succ[idx]
+        for _ in range(6):
+            if cur is None:
+                return None
+            blk2 = f.blocks[cur]
+            for e in blk2.el:
+                if e.get("k") == "Return" and "e" in e:
+                    v = strip(e["e"])
+                    if const_val(v) is not None:
+                        return const_val(v)
+                    if v.get("k") == "Cond" and show(strip(v["c"])) == show(strip(c0)):
+                        return const_val(v["a"] if idx == 0 else v["b"])
+                    return None
+            ls = blk2.live_succ()
+            if len(ls) != 1:
+                return None
+            cur = ls[0]
+        return None
     for bid in ct.reachable():
         c = ct.branch_cond(bid)
         if c is None:
             continue
-        op, l, r = atom_of(c, True)
         blk = ct.blocks[bid]
-        if op == ">" and "st_mtim" in show(l) and strip(r).get("d") == "param":
-            s = blk.succ[0]
-            stale_ok = s is not None and any(e.get("k") == "Return" and const_val(e.get("e")) == 0 for e in ct.blocks[s].el)
-        if op == "==" and strip(l).get("fn") in ("stat", "lstat") and const_val(r) == -1:
-            s = blk.succ[0]
-            miss_ok = s is not None and any(e.get("k") == "Return" and const_val(e.get("e")) == -1 for e in ct.blocks[s].el)
+        for idx, truth in ((0, True), (1, False)):
+            op, l, r = atom_of(c, truth)
+            if op == ">" and "st_mtim" in show(l) and strip(r).get("d") == "param":
+                stale_ok = value_on_edge(ct, bid, idx) == 0
+            if op == "==" and strip(l).get("fn") in ("stat", "lstat") and const_val(r) == -1:
+                miss_ok = value_on_edge(ct, bid, idx) == -1
     run.ob("C17-b", "stale-is-greater", stale_ok, "st_mtime > mtime returns 0" if stale_ok else "check_times does not report a newer dependency as stale", ct.file, ct.line, "check_times",
            what="check_times does not return 0 when the dependency is newer than the binary")
     run.ob("C17-b", "missing", miss_ok, "stat failure returns -1" if miss_ok else "check_times does not distinguish a missing file", ct.file, ct.line, "check_times",
@@ -229,7 +250,14 @@ def check(run, prog, tier):
     for f in prog.functions():
         for b, i, n in f.nodes():
             if n.get("k") == "Asg" and strip(n["L"]).get("n") == "config_id" and strip(n["L"]).get("d") in ("global", "static"):
-                cw.append((f.name, show(n["R"])))
+                rhs_txt = show(n["R"])
+                r0 = strip(n["R"])
+                # a file-local helper that returns the stat() time or 0 stands for that value
+                if r0.get("k") == "Call" and unit.funcs.get(r0.get("fn")) is not None and unit.funcs[r0["fn"]].static:
+                    rets = [show(e["e"]) for b2, i2, e in unit.funcs[r0["fn"]].elements() if e.get("k") == "Return" and "e" in e]
+                    if rets and all("st_mtim" in t or t.strip() == "0" for t in rets) and any("st_mtim" in t for t in rets):
+                        rhs_txt = "st_mtime (through %s())" % r0["fn"]
+                cw.append((f.name, rhs_txt))
             if (n.get("k") == "Asg" and strip(n["L"]).get("n") == "driver_id" and strip(n["L"]).get("d") in ("global", "static")):
                 dw.append(f.name)
     okc = bool(cw) and all(fn == "init_binaries" and ("st_mtim" in rhs or rhs.strip() == "0") for fn, rhs in cw) and any("st_mtim" in rhs for fn, rhs in cw)
